@@ -163,6 +163,12 @@ impl Property for C02 {
         ["foo ", " x", "&nbsp;x".replace("&nbsp;", "\u{a0}").as_str(), "a\rb", " a \n b ", "a \r\n\tb"]
             .iter()
             .flat_map(|t| (0..3).map(|p| text_case(t, p)).collect::<Vec<_>>())
+            // `v-slots` on hosts whose children are not slots
+            .chain([
+                crate::props::semantic::misuse_case("<div v-slots={sl1}></div>", None, true),
+                crate::props::semantic::misuse_case("<div v-slots={sl1} />", None, true),
+                crate::props::semantic::misuse_case("<svg v-slots={{ named: () => 1 }}>{}</svg>", None, true),
+            ])
             .collect()
     }
     fn required_labels(&self) -> Vec<&'static str> {
@@ -579,6 +585,18 @@ impl Property for C11 {
     }
     fn check(&self, case: &Case, ctx: &mut Ctx) -> Verdict {
         judge_semantic_for(case, ctx, "C11")
+    }
+    fn builtin_cases(&self) -> Vec<Case> {
+        use crate::props::semantic::misuse_case;
+        vec![
+            // a `v-slots` value on a host whose children are not slots
+            misuse_case("<div v-slots={t(1)}>txt</div>", Some("t(1)"), false),
+            misuse_case("<KeepAlive v-slots={t(1)}>{x}</KeepAlive>", Some("t(1)"), false),
+            misuse_case("<><div v-slots={t(1)}><i /></div></>", Some("t(1)"), false),
+            // a second `v-slots`
+            misuse_case("<C1 v-slots={t(1)} v-slots={t(2)}>txt</C1>", Some("t(1)"), false),
+            misuse_case("<C1 v-slots={t(1)} v-slots>txt</C1>", Some("t(1)"), false),
+        ]
     }
     fn required_labels(&self) -> Vec<&'static str> {
         vec![
